@@ -597,6 +597,10 @@ func (u *Unit) strConst(s string) string {
 	u.declared[key] = true
 	n := u.declConst("strlit", "Str")
 	u.keySort[key] = n
+	if u.strLits == nil {
+		u.strLits = map[string]string{}
+	}
+	u.strLits[n] = s
 	u.assert(fmt.Sprintf("(= (S_len %s) %s)", n, u.mode.idxLit(int64(len(s)))))
 	if len(s) <= 48 {
 		for i := 0; i < len(s); i++ {
